@@ -566,6 +566,20 @@ def csv_rule(index, rep):
     ok = len(dfs) == 1 and len(writes) == 1 and norm_src(writes[0].func.value) == norm_src(dfs[0].targets[0]) and \
         not [k for k in writes[0].keywords if k.arg in ("float_format", "columns", "decimal")]
     rep.check(ok, rule, "written-unformatted", "the table is not written as pd.DataFrame(dict).to_csv(path) without number formatting", loc=loc(INT, fn))
+    # the write replaces the file with this run's table: no append mode, header kept, no other to_csv option that drops or reshapes numbers
+    if len(writes) == 1:
+        bad_kw = []
+        for k in writes[0].keywords:
+            if k.arg in ("index", "sep", "encoding", "index_label", "lineterminator", "line_terminator"):
+                continue
+            if k.arg == "mode" and isinstance(k.value, ast.Constant) and k.value.value == "w":
+                continue
+            if k.arg == "header" and isinstance(k.value, ast.Constant) and k.value.value is True:
+                continue
+            bad_kw.append(f"{k.arg}={norm_src(k.value)[:40]}" if k.arg else "**" + norm_src(k.value)[:40])
+        rep.check(not bad_kw and len(writes[0].args) == 1, rule, "written-replacing-the-file",
+                  f"to_csv is called with {bad_kw or 'extra positional arguments'}: the saved file may hold rows of an earlier run, or not the numbers of the "
+                  "returned result", loc=loc(INT, writes[0]))
     # the write happens on every call: every enclosing conditional is a literal-True flag, nothing returns before it
     if len(writes) == 1:
         w = writes[0]
